@@ -70,8 +70,10 @@ EXPLANATION = ("Theorems are for all lists and all equivalence relations; the co
                "nothing is enumerated exhaustively except all 6 orders of 3-item multisets of the first 3 near-miss triples.")
 TRUSTED_BASE = [
     "Coq 8.16.1 kernel + vm_compute (no native_compute)",
-    "hand-written model coq/model/C13_Model.v tied to synkit/Graph/Matcher/{graph_cluster,batch_cluster}.py and "
-    "graph_morphism.graph_isomorphism by the per-run correspondence (clusters, rule_to_cluster, classes and the template list after every call)",
+    "hand-written models coq/model/C13_Model.v, C13_Trace.v (traced loops, raw attribute dictionaries, constructor contract, graph_isomorphism "
+    "options), C13_Opts.v (matcher arguments as options) tied to synkit/Graph/Matcher/{graph_cluster,batch_cluster}.py and "
+    "graph_morphism.graph_isomorphism by the per-run correspondence (clusters, rule_to_cluster, classes, the template list AND the sequence of "
+    "isomorphism tests with the verdict of each, after every call)",
     "networkx nx.is_isomorphic(node_match, edge_match) decides label-preserving isomorphism: modelled by the verified enumerator lib/Mono.v "
     "(induced, equal node counts), for which C13_iso_decides_isomorphism / C13_iso_is_equivalence are proved; the generic theorems take the "
     "test as a parameter and assume only that it is an equivalence (monitored: classes compared after every call)",
@@ -81,14 +83,16 @@ TRUSTED_BASE = [
 ]
 ASSUMPTIONS = ["list-valued pre-grouping attributes may be given as lists or tuples (both read as multisets, /repo 6f9daf3 + b9f48de)",
                "items are networkx Graphs (not GML rule strings: the 'mod' backend is not installed)",
-               "the pre-grouping attribute is None (attribute_key=None), a str, or a list of ints (an int raises TypeError in GraphCluster)",
+               "the pre-grouping attribute is None (attribute_key=None), a str, a list / tuple of ints, a dict / OrderedDict, an int, or absent on some "
+               "entries -- also mixed within one list (mode AMixed, /repo 3659dfd)",
                "starting templates are consistent: isomorphic representatives carry the same class",
                "non-empty data lists (iterative_cluster reads rules[0])",
-               "non-default constructor options / explicit matchers: the oracle judges with a reference isomorphism on the configured labels; "
-               "more than two node labels are outside the model (oracle only); BatchCluster.fit's one-shot path (default GraphCluster()) is "
-               "exercised with configurations equivalent to the default only",
+               "non-default constructor options / explicit matchers (any number of node labels; each matcher argument alone): the oracle judges with "
+               "a reference isomorphism on the labels the call really compares (per-argument fallback for lib_check); a call of iterative_cluster "
+               "with a missing matcher and float-valued charges are correspondence-only / oracle-only respectively",
                "what the caller does to its own objects between two calls (in-place edits, mutated results) reaches the model as the resulting "
-               "template list (OTemplates); the model functions are pure, so every call equals its fresh evaluation by construction"]
+               "template list (OTemplates); the model functions are pure, so every call equals its fresh evaluation by construction",
+               "the optional `mod` package is not installed (constructor contract / available_backends; coq_case returns None otherwise)"]
 TESTED_NOT_PROVED = []
 LEVEL_TEXT = ("Machine-checked proof (Coq, 37 theorems in coq/props/C13.v, all closed under the global context). Generic part, for every list "
               "of items and every decidable test `iso` that is an equivalence, with an iso-invariant pre-grouping attribute as the code reads "
